@@ -256,7 +256,7 @@ class Boc:
             refs = []
             for ri in range(len(c['refs'])):
                 r = c['refs'][ri]
-                if r < ci:
+                if r <= ci:  # a reference to an earlier cell or to the cell itself
                     raise Exception('Topological order is broken')
                 refs.append(cells_array[r]['result'])
             cells_array[ci]['result'] = cls(cells_array[ci]['bits'], refs, cells_array[ci]['type'])
